@@ -137,12 +137,12 @@ class TemplateLoader:
                     if not os.path.isabs(path) and ':' in path:
                         package_name, path = path.split(':', 1)
                         with import_package_resource(package_name) as files:
-                            if files.joinpath(path).joinpath(spec).exists():
+                            if files.joinpath(path).joinpath(spec).is_file():
                                 spec = posixpath.join(path, spec)
                                 break
                     else:
                         path = os.path.join(path, spec)
-                        if os.path.exists(path):
+                        if os.path.isfile(path):
                             package_name = None
                             spec = path
                             break
